@@ -267,6 +267,15 @@ func (a *Agent) applyHostRewriteForUDPMux(candidateIPs []net.IP, udpAddr *net.UD
 
 // gatherCandidatesInternal performs the actual candidate gathering for all configured types.
 func (a *Agent) gatherCandidatesInternal(ctx context.Context) {
+	// UpdateOptions(WithUrls) replaces a.urls on the agent loop: take the list there
+	// instead of reading the field from the gathering goroutines.
+	var urls []*stun.URI
+	if err := a.loop.Run(a.loop, func(context.Context) { //nolint:contextcheck
+		urls = a.urls
+	}); err != nil {
+		return
+	}
+
 	var wg sync.WaitGroup
 	for _, t := range a.candidateTypes {
 		switch t {
@@ -277,11 +286,11 @@ func (a *Agent) gatherCandidatesInternal(ctx context.Context) {
 				wg.Done()
 			}()
 		case CandidateTypeServerReflexive:
-			a.gatherServerReflexiveCandidates(ctx, &wg)
+			a.gatherServerReflexiveCandidates(ctx, urls, &wg)
 		case CandidateTypeRelay:
 			wg.Add(1)
 			go func() {
-				a.gatherCandidatesRelay(ctx, a.urls)
+				a.gatherCandidatesRelay(ctx, urls)
 				wg.Done()
 			}()
 		case CandidateTypePeerReflexive, CandidateTypeUnspecified:
@@ -292,15 +301,15 @@ func (a *Agent) gatherCandidatesInternal(ctx context.Context) {
 	wg.Wait()
 }
 
-func (a *Agent) gatherServerReflexiveCandidates(ctx context.Context, wg *sync.WaitGroup) {
+func (a *Agent) gatherServerReflexiveCandidates(ctx context.Context, urls []*stun.URI, wg *sync.WaitGroup) {
 	replaceSrflx := a.addressRewriteMapper != nil && a.addressRewriteMapper.shouldReplace(CandidateTypeServerReflexive)
 	if !replaceSrflx {
 		wg.Add(1)
 		go func() {
 			if a.udpMuxSrflx != nil {
-				a.gatherCandidatesSrflxUDPMux(ctx, a.urls, configuredNetworkTypes(a.networkTypes))
+				a.gatherCandidatesSrflxUDPMux(ctx, urls, configuredNetworkTypes(a.networkTypes))
 			} else {
-				a.gatherCandidatesSrflx(ctx, a.urls, configuredNetworkTypes(a.networkTypes))
+				a.gatherCandidatesSrflx(ctx, urls, configuredNetworkTypes(a.networkTypes))
 			}
 			wg.Done()
 		}()
